@@ -82,6 +82,7 @@ class Verifier(ExprMixin, StmtMixin, CallMixin, LibMixin, SpecMixin):
 
     def lookup_function(self, qn):
         path, name = qn.split("::")
+        name = name.split("#")[0]
         mod = self.module(path)
         if name not in mod.funcs:
             raise VCError("function %s not found in %s" % (name, path))
@@ -179,6 +180,69 @@ class Verifier(ExprMixin, StmtMixin, CallMixin, LibMixin, SpecMixin):
             keys[id(n)] = "%s#%d" % (kind, cnt[kind])
         return keys
 
+    def extract_segment(self, fdef, seg):
+        """seg = dict(start=<first line of a statement>, start_ordinal=1, end=<first line of a later sibling>|None, end_ordinal=1)."""
+        def head(n):
+            return ast.unparse(n).splitlines()[0].strip()
+        want = seg["start"].strip()
+        hits = []
+        for parent in ast.walk(fdef):
+            for field in ("body", "orelse", "finalbody"):
+                blk = getattr(parent, field, None)
+                if isinstance(blk, list):
+                    for i, stmt in enumerate(blk):
+                        if isinstance(stmt, ast.stmt) and head(stmt) == want:
+                            hits.append((stmt.lineno, blk, i))
+        hits.sort(key=lambda h: h[0])
+        k = seg.get("start_ordinal", 1)
+        if len(hits) < k:
+            raise VCError("segment start %r #%d not found in %s" % (want, k, fdef.name))
+        _, blk, i = hits[k - 1]
+        if seg.get("end") is None:
+            return [blk[i]]
+        endw = seg["end"].strip()
+        cnt = 0
+        for j in range(i + 1, len(blk)):
+            if head(blk[j]) == endw:
+                cnt += 1
+                if cnt == seg.get("end_ordinal", 1):
+                    return blk[i:j + (1 if seg.get("end_inclusive") else 0)]
+        raise VCError("segment end %r not found after %r in %s" % (endw, want, fdef.name))
+
+    def slice_stmts(self, stmts, keep):
+        """Program slice: keep control structure and the assignments to the named variables, drop everything else
+        (the dropped statements are reported as unverified)."""
+        out = []
+        for s in stmts:
+            if isinstance(s, (ast.Assign, ast.AugAssign, ast.AnnAssign)):
+                tg = s.targets if isinstance(s, ast.Assign) else [s.target]
+                names = set()
+                for t in tg:
+                    for n in ast.walk(t):
+                        if isinstance(n, ast.Name):
+                            names.add(n.id)
+                if names and names <= keep and all(isinstance(t, (ast.Name, ast.Tuple)) for t in tg):
+                    out.append(s)
+            elif isinstance(s, (ast.For, ast.While)):
+                s2 = type(s)(**{f: getattr(s, f) for f in s._fields})
+                ast.copy_location(s2, s)
+                inner = self.slice_stmts(s.body, keep)
+                if not any(isinstance(x, (ast.Assign, ast.AugAssign, ast.AnnAssign, ast.Return)) for b in inner for x in ast.walk(b)) and out:
+                    continue  # a nested loop that does not touch the kept variables has no effect on them
+                s2.body = inner or [ast.copy_location(ast.Pass(), s)]
+                s2.orelse = []
+                self.loop_keys[id(s2)] = self.loop_keys[id(s)]
+                out.append(s2)
+            elif isinstance(s, ast.If):
+                b, o = self.slice_stmts(s.body, keep), self.slice_stmts(s.orelse, keep)
+                if b or o:
+                    s2 = ast.If(test=s.test, body=b or [ast.copy_location(ast.Pass(), s)], orelse=o)
+                    ast.copy_location(s2, s)
+                    out.append(s2)
+            elif isinstance(s, (ast.Break, ast.Continue, ast.Return)):
+                out.append(s)
+        return out
+
     def anchor_ghost(self, fdef, specs):
         """ghost_after = [(statement text, ordinal, ghost code)]: anchored on the real statement whose
         unparsed text matches; an anchor matching no statement is a checker error (exit 3)."""
@@ -186,8 +250,13 @@ class Verifier(ExprMixin, StmtMixin, CallMixin, LibMixin, SpecMixin):
         stmts = [n for n in ast.walk(fdef) if isinstance(n, ast.stmt)]
         stmts.sort(key=lambda n: (n.lineno, n.col_offset))
         for pattern, ordinal, code in specs:
-            want = ast.unparse(ast.parse(pattern).body[0])
-            hits = [n for n in stmts if ast.unparse(n) == want]
+            if pattern.startswith("@assign:"):
+                # anchored on the assigned name, so that an edit of the right-hand side is verified, not lost
+                nm = pattern.split(":", 1)[1]
+                hits = [n for n in stmts if isinstance(n, ast.Assign) and len(n.targets) == 1 and isinstance(n.targets[0], ast.Name) and n.targets[0].id == nm]
+            else:
+                want = ast.unparse(ast.parse(pattern).body[0])
+                hits = [n for n in stmts if ast.unparse(n) == want]
             if len(hits) < ordinal:
                 raise VCError("ghost anchor %r #%d not found in %s" % (pattern, ordinal, fdef.name))
             out[id(hits[ordinal - 1])] = code
@@ -300,6 +369,7 @@ class Verifier(ExprMixin, StmtMixin, CallMixin, LibMixin, SpecMixin):
         self.npaths, self.cur_line = 0, 0
         self.ghost_after_map = {}
         self.degraded = False
+        self.segment_loop_id = None
         self.sym_consts = {}
         res = dict(function=qn, variant=variant, error=None)
         try:
@@ -315,6 +385,17 @@ class Verifier(ExprMixin, StmtMixin, CallMixin, LibMixin, SpecMixin):
                 self.sym_consts[nm] = self.make_value(ty, st, "C_" + nm)
             names = [p.arg for p in fdef.args.posonlyargs + fdef.args.args + fdef.args.kwonlyargs]
             ptypes = self.contract.get("params", {})
+            body = fdef.body
+            if self.contract.get("segment"):
+                # a mechanically extracted statement range of a larger function, verified under stated assumptions on its live-in locals
+                body = self.extract_segment(fdef, self.contract["segment"])
+                if self.contract["segment"].get("keep"):
+                    body = self.slice_stmts(body, set(self.contract["segment"]["keep"]))
+                self.segment_loop_id = id(body[0])
+                names = list(self.contract.get("locals", {}))
+                ptypes = self.contract.get("locals", {})
+                res["segment_lines"] = [body[0].lineno, body[-1].end_lineno]
+                res["source_sha"] = hashlib.sha256("\n".join(ast.unparse(b) for b in body).encode()).hexdigest()[:16]
             self.entry_params = {}
             for nm in names:
                 if nm not in ptypes:
@@ -337,11 +418,13 @@ class Verifier(ExprMixin, StmtMixin, CallMixin, LibMixin, SpecMixin):
             for r in self.contract.get("assumed_requires", []):
                 st.assume(self.spec_bool(r, st, assume=True))
                 self.trust("ASSUMED precondition of %s (not checked at call sites): %s" % (qn.split("::")[-1], r))
+            for lm in self.contract.get("lemmas", []):
+                st.assume(self.spec_bool(lm, st, assume=True))
             self.entry_state = st.snapshot()
             st.old = self.entry_state
             self.canaries.append(("precondition satisfiable", fdef.lineno, solve.feasible(st.pc, 2000, full=True)))
             self.run_ghost(self.contract.get("ghost_init"), st)
-            outs = self.exec_block(fdef.body, st)
+            outs = self.exec_block(body, st)
             n_ret = 0
             reach = []
             for kind, s2, v in outs:
@@ -359,6 +442,7 @@ class Verifier(ExprMixin, StmtMixin, CallMixin, LibMixin, SpecMixin):
                 # local name inside the body is not visible to the caller); its contents are the current ones
                 for pn, pv in self.entry_params.items():
                     s2.vars[pn] = (pv, True)
+                s2.vars["result"] = (result, True)  # a local variable called `result` must not shadow the returned value
                 for i, e in enumerate(list(self.contract.get("ensures", [])) + list(self.contract.get("ensures_ghost", []))):
                     self.oblige(s2, "post", fdef, self.spec_bool(e, s2), "postcondition #%d: %s" % (i + 1, e))
                 reach.append(solve.feasible(s2.pc, 1000, full=True))
